@@ -235,6 +235,116 @@ def _traffic_tokens(job):
 
 
 # ---- (c) shipped snapshots ------------------------------------------------------------------
+def _partitions():
+    """Irregular segmentations of a 1024-byte transfer (the segment index is one byte, so at most 256 segments)."""
+    sizes = [1, 7, 10, 39, 40, 100, 255]
+    out = []
+    for a, b in itertools.product(sizes, repeat=2):
+        if a != b:
+            out.append(("alt", (a, b)))        # a, b, a, b, ...
+            out.append(("first", (a, b)))      # a, then b, b, b, ...
+    out += [("cycle", (10, 39, 39, 5, 200)), ("cycle", (39, 38, 40)), ("cycle", (3, 250, 17)), ("grow", (5,)), ("shrink", (120,))]
+    res = []
+    for kind, p in out:
+        segs, left, i = [], 1024, 0
+        while left > 0:
+            if kind == "alt":
+                n = p[i % 2]
+            elif kind == "first":
+                n = p[0] if i == 0 else p[1]
+            elif kind == "cycle":
+                n = p[i % len(p)]
+            elif kind == "grow":
+                n = p[0] + 3 * i
+            else:
+                n = max(4, p[0] - 5 * i)
+            n = min(n, left, 255)
+            segs.append(n)
+            left -= n
+            i += 1
+        if len(segs) <= 256:
+            res.append((f"{kind}{p}", segs))
+    return res
+
+
+def _traffic_partition_job(job):
+    lo, hi = job
+    tmp = tempfile.mkdtemp(prefix="geckomc-c19-", dir="/tmp")
+    n = 0
+    bad = []
+    blk = bytes((7 * i + 3 * (i // 11) + 1) % 256 for i in range(1024))
+    try:
+        path = os.path.join(tmp, "p.log")
+        for name, segs in _partitions()[lo:hi]:
+            n += 1
+            with FileLog(path, logging.DEBUG):
+                logging.getLogger("geckolib.spa").info("Starting spa connection handshake...")
+                sock = GeckoUdpSocket()
+                from geckolib.driver import GeckoPacketProtocolHandler, GeckoStatusBlockProtocolHandler
+                sock.add_receive_handler(GeckoPacketProtocolHandler(socket=sock))
+                sock.add_receive_handler(GeckoStatusBlockProtocolHandler())
+                off = 0
+                for i, sz in enumerate(segs):
+                    nxt = 0 if i == len(segs) - 1 else (i + 1) % 256
+                    sock.dispatch_recevied_data(wire.frame(SPA_ID, b"IOSx", wire.statv(i, nxt, blk[off:off + sz])), SPA_ADDR)
+                    off += sz
+            try:
+                snaps = GeckoSnapshot.parse_log_file(path)
+                got = snaps[0].bytes if snaps else None
+            except Exception as e:  # noqa
+                got = f"<parse raised {e!r}>"
+            if got != blk:
+                bad.append(("segmentation", f"traffic log of a transfer cut into segments {name} ({segs[:6]}...): reassembles to "
+                                            f"{len(got) if isinstance(got, bytes) else got} bytes"
+                                            f"{'' if not isinstance(got, bytes) else ', first difference at ' + str(next((i for i in range(min(len(got), 1024)) if got[i] != blk[i]), min(len(got), 1024)))}"))
+    finally:
+        shutil.rmtree(tmp, ignore_errors=True)
+    return n, bad
+
+
+def _reload_job(_):
+    """ONE simulator loads every shipped snapshot one after the other (forwards, then backwards, so that snapshots of
+    the same pack/config/log versions follow each other both ways): after each load it holds and serves that snapshot."""
+    from ..peers import SimPeer
+    from . import c01
+
+    snaps = []
+    for f in lib.snapshot_files():
+        try:
+            for i, sn in enumerate(GeckoSnapshot.parse_log_file(f)):
+                if len(sn.bytes) == 1024 and sn.packtype:
+                    snaps.append((f"{os.path.basename(f)}#{i}", sn))
+        except Exception:  # noqa  (reported by the per-file job)
+            pass
+    lib.reset_library()
+    peer = SimPeer(snaps[0][1])
+    bad = []
+    n = 0
+    prev = snaps[0][0]
+    for tag, sn in snaps[1:] + snaps[::-1]:
+        n += 1
+        nlog = len(lib.LOG.records)
+        peer.sim.set_snapshot(sn)
+        sim = peer.sim
+        errs = [r for r in lib.LOG.records[nlog:] if "snapshot load" in r[2]]
+        if errs:
+            bad.append(("reload", f"{tag} loaded after {prev}: set_snapshot failed: {errs[0][3]}"))
+        elif sim.structure.status_block != sn.bytes:
+            d = [i for i in range(1024) if sim.structure.status_block[i] != sn.bytes[i]]
+            bad.append(("reload", f"{tag} loaded into a simulator that held {prev}: the simulator's block differs from the snapshot at "
+                                  f"{len(d)} offsets (first {d[:4]})"))
+        elif sim.config_class.version != sn.config_version or sim.log_class.version != sn.log_version:
+            bad.append(("reload", f"{tag} loaded after {prev}: simulator tables cfg {sim.config_class.version} / log {sim.log_class.version}"))
+        else:
+            why = c01.chain_violation(sim, 0, 1024)
+            if why:
+                bad.append(("reload", f"{tag} loaded after {prev}: served chain: {why}"))
+        if bad:
+            break
+        prev = tag
+    return n, bad
+
+
 def _shipped_job(path):
     name = os.path.basename(path)
     out = []
@@ -406,6 +516,13 @@ def run(ctx):
         for cls, text in bad:
             ctx.violation(f"C19|traffic-content|{cls}", text, {"mode": "traffic-tokens"})
     nontrivial.add("traffic-tokens")
+    npart = len(_partitions())
+    for n, bad in core.pmap(ctx, _traffic_partition_job, [(lo, min(npart, lo + 8)) for lo in range(0, npart, 8)], chunksize=1):
+        evals += n
+        for cls, text in bad:
+            ctx.violation(f"C19|traffic-content|{cls}", text, {"mode": "traffic-partitions"})
+    nontrivial.add("traffic-partitions")
+    ctx.set("traffic_partitions", npart)
     ctx.log(f"(b) traffic logs: {len(sizes)} segment sizes, {ntok} segment contents")
     files = lib.snapshot_files()
     total_snaps = 0
@@ -415,6 +532,11 @@ def run(ctx):
         nontrivial.add(("file", name))
         for cls, text in out:
             ctx.violation(f"C19|shipped|{cls}|{name}", text, {"mode": "shipped", "file": name})
+    for n, bad in core.pmap(ctx, _reload_job, [0], chunksize=1):
+        evals += n
+        for cls, text in bad:
+            ctx.violation(f"C19|shipped|{cls}", text, {"mode": "reload"})
+    nontrivial.add("reload-chain")
     ctx.sample({"shipped_case": {"file": os.path.basename(files[ctx.seed % len(files)]), "steps": "parse -> set_snapshot -> real async client connects -> block compared"}})
     ctx.sample({"traffic_case": {"segment_size": sizes[ctx.seed % len(sizes)], "log": "DEBUG log of the blocking client's handshake, parsed back"}})
     ctx.set("shipped_files", len(files))
@@ -439,6 +561,14 @@ def replay(ctx, data):
         why = _traffic_handshake(data["segsize"])
         if why:
             ctx.violation(f"C19|traffic|{why[0]}", why[1], data)
+    elif m == "reload":
+        n, bad = _reload_job(0)
+        for cls, text in bad:
+            ctx.violation(f"C19|shipped|{cls}", text, data)
+    elif m == "traffic-partitions":
+        n, bad = _traffic_partition_job((0, 1000))
+        for cls, text in bad:
+            ctx.violation(f"C19|traffic-content|{cls}", text, data)
     elif m == "traffic-tokens":
         n, bad = _traffic_tokens((0, 400))
         for cls, text in bad:
